@@ -343,3 +343,23 @@ PROPS["C02"] = {
         {"fuzz": "FuzzIncomingRTCP", "fuzztime": "90s", "workers": 2, "empty_corpus": True, "timeout": 400},
     ],
 }
+
+PROPS["C01"] = {
+    "pkg": "c01",
+    "technique": "property-based testing of generated interceptor chains with transport spies, fault injection at generated call indices and lifecycle spies (oracle: identity of application traffic at the innermost reader/writer)",
+    "level_text": "Each case builds a chain through Registry.Build from a generated sequence of the 16 non-buffering factories with lifecycle spies interleaved, binds generated streams, "
+                  "and runs up to ~40 operations (RTP/RTCP writes and reads, faults injected into the innermost reader/writer). Application packets must reach the next writer exactly once, first, "
+                  "unmodified except for the negotiated transport-cc extension; reads must hand up identical bytes; errors must surface; packets whose read failed must not appear in any generated "
+                  "feedback; Unbind/Close must reach every member once with all Close errors preserved. Exploration.",
+    "level_note": "trusts: the transport spies' deep copies; a failing read leaves the packet's bytes in the caller's buffer and reports their length together with the error (so that accounting it would be "
+                  "visible); when transport-cc is negotiated the application supplies the extension itself (the estimator rejects packets without it by design); retransmission goroutines are awaited after "
+                  "incoming RTCP so that injected packets cannot overlap the next application write",
+    "assumptions": ["header extensions use the one-byte profile when transport-cc is negotiated", "payload 0..1460"],
+    "quick": [
+        {"test": "^TestChainTransparency$", "checks": 500, "steps": 40, "shards": 4, "timeout": 600},
+    ],
+    "thorough": [
+        {"test": "^TestChainTransparency$", "checks": 5000, "steps": 60, "shards": 12, "timeout": 1800},
+        {"test": "^TestChainTransparency$", "checks": 300, "steps": 40, "shards": 4, "race": True, "timeout": 1800},
+    ],
+}
